@@ -556,6 +556,9 @@ func (g *gen) viewRequest() string {
 			case 1:
 				steps = append(steps, fmt.Sprintf("gw:%s:%d", key, v))
 			default:
+				if g.r.Chance(25) {
+					key = []string{"foo", "length", "x1"}[g.r.Intn(3)] // delete of a non-index name
+				}
 				steps = append(steps, "jd:"+key)
 			}
 		}
@@ -567,4 +570,38 @@ func (g *gen) viewRequest() string {
 		return strings.Join(a, sep)
 	}
 	return fmt.Sprintf("view %s %s %s %s %s", kind, join(init, ","), join(tags, ","), strings.Join(probes, ","), join(steps, ";"))
+}
+
+// ---------------------------------------------------------------- same-named struct types
+
+func (g *gen) recsRequest() string {
+	layouts := map[string][]string{"a": {"X", "Y", "Z"}, "b": {"Y", "X"}, "c": {"Z"}, "d": {"W", "Z", "Y", "X"}}
+	order := []string{"a", "b", "c", "d"}
+	// a random subset in random order, at least two types
+	g.shuffle(order)
+	order = order[:2+g.r.Intn(3)]
+	var parts []string
+	for _, o := range order {
+		parts = append(parts, o+"="+strings.Join(layouts[o], ","))
+	}
+	nvm := 1 + g.r.Intn(3)
+	fields := []string{"X", "Y", "Z", "W"}
+	var steps []string
+	for i := 0; i < 2+g.r.Intn(8); i++ {
+		o := order[g.r.Intn(len(order))]
+		f := fields[g.r.Intn(len(fields))]
+		if g.r.Chance(60) {
+			steps = append(steps, fmt.Sprintf("%d.%s.r.%s", g.r.Intn(nvm), o, f))
+		} else {
+			steps = append(steps, fmt.Sprintf("%d.%s.w.%s.%d", g.r.Intn(nvm), o, f, 100+g.r.Intn(100)))
+		}
+	}
+	return fmt.Sprintf("recs %d %s %s", nvm, strings.Join(parts, "|"), strings.Join(steps, ";"))
+}
+
+func (g *gen) shuffle(a []string) {
+	for i := len(a) - 1; i > 0; i-- {
+		j := g.r.Intn(i + 1)
+		a[i], a[j] = a[j], a[i]
+	}
 }
